@@ -162,11 +162,12 @@ Record mstate := {
   relq : list tid;                    (* ids queued when the current release started *)
   abs_done : list key;                (* completed outputs referenced by absolute triggers *)
   stop_point : Z;
+  done : list key;                    (* every output completed so far, by any instance (append-only) *)
 }.
 
 Definition init_state (c : cfg) : mstate :=
   {| pool := []; limbo := []; hist := []; subs := []; limit := None; relq := []; abs_done := [];
-     stop_point := c_fcp c |}.
+     stop_point := c_fcp c; done := [] |}.
 
 Fixpoint find_task (l : list ptask) (t : tid) : option ptask :=
   match l with
@@ -186,25 +187,28 @@ Fixpoint update_task (l : list ptask) (p' : ptask) : list ptask :=
 
 Definition with_pool (s : mstate) (l : list ptask) : mstate :=
   {| pool := l; limbo := limbo s; hist := hist s; subs := subs s; limit := limit s; relq := relq s;
-     abs_done := abs_done s; stop_point := stop_point s |}.
+     abs_done := abs_done s; stop_point := stop_point s; done := done s |}.
 Definition with_limbo (s : mstate) (l : list ptask) : mstate :=
   {| pool := pool s; limbo := l; hist := hist s; subs := subs s; limit := limit s; relq := relq s;
-     abs_done := abs_done s; stop_point := stop_point s |}.
+     abs_done := abs_done s; stop_point := stop_point s; done := done s |}.
 Definition with_hist (s : mstate) (l : list hrec) : mstate :=
   {| pool := pool s; limbo := limbo s; hist := l; subs := subs s; limit := limit s; relq := relq s;
-     abs_done := abs_done s; stop_point := stop_point s |}.
+     abs_done := abs_done s; stop_point := stop_point s; done := done s |}.
 Definition with_subs (s : mstate) (l : list (tid * nat)) : mstate :=
   {| pool := pool s; limbo := limbo s; hist := hist s; subs := l; limit := limit s; relq := relq s;
-     abs_done := abs_done s; stop_point := stop_point s |}.
+     abs_done := abs_done s; stop_point := stop_point s; done := done s |}.
 Definition with_limit (s : mstate) (l : option Z) : mstate :=
   {| pool := pool s; limbo := limbo s; hist := hist s; subs := subs s; limit := l; relq := relq s;
-     abs_done := abs_done s; stop_point := stop_point s |}.
+     abs_done := abs_done s; stop_point := stop_point s; done := done s |}.
 Definition with_relq (s : mstate) (l : list tid) : mstate :=
   {| pool := pool s; limbo := limbo s; hist := hist s; subs := subs s; limit := limit s; relq := l;
-     abs_done := abs_done s; stop_point := stop_point s |}.
+     abs_done := abs_done s; stop_point := stop_point s; done := done s |}.
+Definition with_done (s : mstate) (l : list key) : mstate :=
+  {| pool := pool s; limbo := limbo s; hist := hist s; subs := subs s; limit := limit s; relq := relq s;
+     abs_done := abs_done s; stop_point := stop_point s; done := l |}.
 Definition with_abs (s : mstate) (l : list key) : mstate :=
   {| pool := pool s; limbo := limbo s; hist := hist s; subs := subs s; limit := limit s; relq := relq s;
-     abs_done := l; stop_point := stop_point s |}.
+     abs_done := l; stop_point := stop_point s; done := done s |}.
 
 (* a task is looked up in the pool first, then among the just-spawned ones *)
 Definition lookup (s : mstate) (t : tid) : option (ptask * bool) :=
@@ -220,11 +224,8 @@ Definition sat_of (p : ptask) (k : key) : bool := mem key_eqb k (p_sat p).
 Definition prereqs_ok (i : inst) (p : ptask) : bool := forallb (bx_eval (sat_of p)) (i_pre i).
 Definition has_out (l : list output) (o : output) : bool := mem Nat.eqb o l.
 
-(* has output [o] of instance [t] been completed so far (pool, limbo or history)? *)
-Definition out_done (s : mstate) (t : tid) (o : output) : bool :=
-  existsb (fun p => tid_eqb (p_id p) t && has_out (p_outs p) o) (pool s)
-  || existsb (fun p => tid_eqb (p_id p) t && has_out (p_outs p) o) (limbo s)
-  || existsb (fun h => tid_eqb (h_id h) t && has_out (h_outs h) o) (hist s).
+(* has output [o] of instance [t] been completed so far? *)
+Definition out_done (s : mstate) (t : tid) (o : output) : bool := mem key_eqb (t, o) (done s).
 
 (* ready to be queued: what queue_if_ready / is_ready_to_run require *)
 Definition ready (i : inst) (p : ptask) : bool :=
@@ -300,6 +301,7 @@ Inductive event :=
 | ERemove (t : tid) (completed : bool)
 | ELimit (l : option Z)
 | EMerge (t : tid) (flows : list nat)
+| EAbs (k : key)
 | ETickEnd (snap : list tview)
 | EShutdownAuto.
 
@@ -349,6 +351,12 @@ Definition tick_counters (c : cfg) (s : mstate) (p : ptask) : ptask :=
 
 Definition max_idle : nat := 3.
 
+(* completed absolute-trigger outputs are reflected in every pooled dependent's satisfaction (C45):
+   counting them as satisfied changes the truth of no prerequisite expression *)
+Definition abs_reflected (s : mstate) (i : inst) (p : ptask) : bool :=
+  forallb (fun e => Bool.eqb (bx_eval (fun k => sat_of p k || mem key_eqb k (abs_done s)) e)
+                             (bx_eval (sat_of p) e)) (i_pre i).
+
 Definition step (c : cfg) (s : mstate) (e : event) : res :=
   match e with
   | ESpawn t flows sat0 held =>
@@ -357,7 +365,7 @@ Definition step (c : cfg) (s : mstate) (e : event) : res :=
       | Some i =>
           if negb (Z.leb (c_icp c) (fst t) && Z.leb (fst t) (c_fcp c)) then Err 102
           else if existsb (fun p => tid_eqb (p_id p) t) (pool s) then Err 103   (* already pooled (C26) *)
-          else if negb (same_keys sat0 (expected_sat0 s i)) then Err 104        (* initial satisfaction (C45) *)
+          else if negb (subset_keys sat0 (expected_sat0 s i)) then Err 104      (* initially satisfied only by completed absolute outputs *)
           else Ok (with_limbo s (new_task t flows sat0 held :: remove_task (limbo s) t))
       end
   | EAdd t =>
@@ -384,7 +392,7 @@ Definition step (c : cfg) (s : mstate) (e : event) : res :=
       match lookup s t with
       | Some (p, inp) =>
           if has_out (p_outs p) o then Err 131
-          else Ok (store s (set_outs p (o :: p_outs p)) inp)
+          else Ok (with_done (store s (set_outs p (o :: p_outs p)) inp) ((t, o) :: done s))
       | None => Err 130
       end
   | EState t st h q r =>
@@ -403,9 +411,10 @@ Definition step (c : cfg) (s : mstate) (e : event) : res :=
   | ERelease l =>
       let newly := filter (fun t => match find_task (pool s) t with
                                     | Some p => negb (p_rel p) | None => true end) l in
-      if negb (forallb (fun t => match find_task (pool s) t with
-                                 | Some p => (p_rel p || mem tid_eqb t (relq s)) && negb (p_held p)
-                                 | None => false end) l) then Err 151
+      if negb (forallb (fun t => match find_task (pool s) t, find_inst (c_insts c) t with
+                                 | Some p, Some i => (p_rel p || mem tid_eqb t (relq s)) && negb (p_held p)
+                                                     && (p_manual p || prereqs_ok i p)
+                                 | _, _ => false end) l) then Err 151
       else if negb (release_ok c s newly) then Err 152      (* queue limit (C05) *)
       else Ok (with_pool s (map (fun p => if mem tid_eqb (p_id p) l then set_rel p true else p) (pool s)))
   | ESubmit t sn =>
@@ -437,6 +446,8 @@ Definition step (c : cfg) (s : mstate) (e : event) : res :=
       | Some (p, inp) => Ok (store s (set_flows p flows) inp)
       | None => Err 190
       end
+  | EAbs k =>
+      if out_done s (fst k) (snd k) then Ok (with_abs s (k :: abs_done s)) else Err 195   (* C45 *)
   | ETickEnd snap =>
       if negb (Nat.eqb (List.length snap) (List.length (pool s))) then Err 201
       else if negb (forallb (fun v => match find_task (pool s) (v_id v) with
@@ -445,7 +456,14 @@ Definition step (c : cfg) (s : mstate) (e : event) : res :=
         let pl := map (tick_counters c s) (pool s) in
         if existsb (fun p => Nat.leb max_idle (p_idle p)) pl then Err 203        (* ready but never queued (C03) *)
         else if existsb (fun p => Nat.leb max_idle (p_lag p)) pl then Err 204    (* within limit but never released (C04) *)
-        else Ok (with_limbo (with_pool s pl) [])
+        else if negb (forallb (fun p => match find_inst (c_insts c) (p_id p) with
+                                        | Some i => abs_reflected s i p | None => false end) (pool s)) then Err 205  (* C45 *)
+        else if existsb (fun p => match find_inst (c_insts c) (p_id p) with
+                                  | Some i => is_final (p_status p) && cx_eval (has_out (p_outs p)) (i_comp i)
+                                  | None => false end) (pool s) then Err 206   (* finished and complete but retained (C11) *)
+        else Ok (with_hist (with_limbo (with_pool s pl) [])
+                   (map (fun p => {| h_id := p_id p; h_flows := p_flows p; h_status := p_status p;
+                                     h_outs := p_outs p |}) (limbo s) ++ hist s))
   | EShutdownAuto =>
       if existsb (fun p => is_active (p_status p)) (pool s) then Err 211
       else if existsb (fun p => status_eqb (p_status p) Waiting && negb (p_runahead p)) (pool s) then Err 212
